@@ -83,6 +83,21 @@ Theorem clone_faithful : forall (idx : option N) (s : store) (a : agent),
 Proof. exact clone_faithful_lemma. Qed.
 Print Assumptions clone_faithful.
 
+(* THE ALLOWED EXCEPTION, made precise — a registry whose only hook re-synchronises a target network t with its online
+   network e (DQN.init_hook): on the copy, the target holds exactly the content of the parent's (= the copy's) online
+   network, tensor by tensor (parameters and buffers). *)
+Theorem clone_target_resynced : forall (idx : option N) (s : store) (a : agent) (e t : name),
+  r_hooks (a_reg a) = [HSync e t] -> e <> t -> Forall (fun l => l < s_next s) (agent_locs a) ->
+  length (blk a (t, cEnc)) = length (blk a (e, cEnc)) ->
+  length (blk a (t, cHead)) = length (blk a (e, cHead)) ->
+  length (blk a (t, cBuf)) = length (blk a (e, cBuf)) ->
+  let r := clone_agent idx s a in
+  map (rd (fst r)) (blk (snd r) (t, cEnc)) = map (rd s) (blk a (e, cEnc)) /\
+  map (rd (fst r)) (blk (snd r) (t, cHead)) = map (rd s) (blk a (e, cHead)) /\
+  map (rd (fst r)) (blk (snd r) (t, cBuf)) = map (rd s) (blk a (e, cBuf)).
+Proof. exact clone_target_resynced_lemma. Qed.
+Print Assumptions clone_target_resynced.
+
 (* hence any behaviour that is a function of that view — greedy action on an observation, the update
    computed from a batch — is the same for parent and copy *)
 Theorem same_behaviour : forall (B : Type) (behaviour : view -> B) (idx : option N) (s : store) (a : agent),
